@@ -275,7 +275,7 @@ int main(int argc, char** argv)
     if (argc > 3) rng_state ^= (uint64_t)atoll(argv[3]) * 0x9E3779B97F4A7C15ULL;
     if (!rng_state) rng_state = 1;
     if (!strcmp(argv[1], "corr")) {
-        corr<int8_t>(thorough, true);
+        corr<int8_t>(thorough, false);   // gt(max) / lt(min) step outside the type: the property leaves them open, so does the correspondence
         corr<int32_t>(thorough, false);
         fprintf(stderr, "CORR cases=%ld\n", ncases);
     } else if (!strcmp(argv[1], "oracle")) {
